@@ -32,6 +32,8 @@ type txSource struct {
 	authN   []uint64
 	baseFee *big.Int
 	taken   []map[uint64]bool // nonces occupied by accepted nonce-gapped transactions
+	prague  bool              // rule set of the pool's head (decides what the pools admit)
+	osaka   bool
 }
 
 func (s *txSource) fee(under bool) (tip, cap *big.Int) {
@@ -70,6 +72,18 @@ func (s *txSource) envelope(i int, nonce uint64, to *common.Address, data []byte
 	}
 }
 
+func (s *txSource) blobFeeCap() uint64 {
+	if s.w.bnd != nil {
+		// the genesis excess of these chains puts the blob base fee anywhere between 1 and ~1e10 wei
+		c := uint64(1 + s.rng.Intn(9))
+		for e := s.rng.Intn(14); e > 0; e-- {
+			c *= 10
+		}
+		return c
+	}
+	return uint64(1 + s.rng.Intn(1_000_000_000))
+}
+
 func randBytes(rng *rand.Rand, n int) []byte {
 	b := make([]byte, n)
 	rng.Read(b)
@@ -82,6 +96,17 @@ func (s *txSource) next() genTx {
 	k := rng.Intn(100)
 	if raceBuild && k >= 76 && k < 83 {
 		k = rng.Intn(73) // blob admission verifies 128 cell proofs per blob: very slow under the race detector
+	}
+	if w.bnd != nil {
+		// fork-boundary family: blob pressure (~1/3 of the pool are blob transactions) and, while
+		// the head is before Osaka, transactions above the EIP-7825 gas cap (admissible now, not
+		// includable in the first Osaka block)
+		switch x := rng.Intn(20); {
+		case x < 5:
+			k = 73
+		case x == 5 && !s.osaka:
+			k = 200
+		}
 	}
 	isBlob := k >= 73 && k < 83
 	i := rng.Intn(10)
@@ -101,7 +126,7 @@ func (s *txSource) next() genTx {
 		g.gapped = true
 	}
 	under := rng.Intn(16) == 0
-	prague := w.config.PragueTime != nil
+	prague := s.prague
 	val := func() *big.Int {
 		if rng.Intn(3) == 0 {
 			return big.NewInt(int64(rng.Intn(1000)))
@@ -109,6 +134,9 @@ func (s *txSource) next() genTx {
 		return new(big.Int)
 	}
 	switch {
+	case k == 200:
+		g.kind = "burn-gas-above-tx-cap"
+		g.tx = s.envelope(i, nonce, &w.burner, nil, params.MaxTxGas+1+uint64(rng.Intn(3_000_000)), new(big.Int), under)
 	case k < 10:
 		g.kind = "transfer"
 		to := w.addrs[rng.Intn(len(w.addrs))]
@@ -184,7 +212,7 @@ func (s *txSource) next() genTx {
 			to = w.addrs[rng.Intn(len(w.addrs))]
 		}
 		inner := &types.BlobTx{ChainID: uint256.MustFromBig(w.config.ChainID), Nonce: nonce, GasTipCap: uint256.MustFromBig(tip), GasFeeCap: uint256.MustFromBig(cap), Gas: 200_000, To: to, Value: uint256.NewInt(uint64(rng.Intn(100))), Data: randBytes(rng, rng.Intn(40)),
-			BlobFeeCap: uint256.NewInt(uint64(1 + rng.Intn(1_000_000_000))), BlobHashes: hs, Sidecar: types.NewBlobTxSidecar(version, bl, cm, pr)}
+			BlobFeeCap: uint256.NewInt(s.blobFeeCap()), BlobHashes: hs, Sidecar: types.NewBlobTxSidecar(version, bl, cm, pr)}
 		g.tx = s.sign(i, inner)
 	case k < 92 && prague:
 		// EIP-7702: the sender installs delegations for 1-2 authorities (valid, stale nonce, wrong chain id)
@@ -214,7 +242,9 @@ func (s *txSource) next() genTx {
 		tip, cap := s.fee(under)
 		to := w.authA[rng.Intn(len(w.authA))] // call a (possibly just delegated) authority
 		g.tx = s.sign(i, &types.SetCodeTx{ChainID: uint256.MustFromBig(w.config.ChainID), Nonce: nonce, GasTipCap: uint256.MustFromBig(tip), GasFeeCap: uint256.MustFromBig(cap), Gas: 500_000, To: to, Data: randBytes(rng, rng.Intn(40)), AuthList: auths})
-	case k < 100 && prague:
+	case k < 100 && (prague || w.bnd != nil):
+		// (fork-boundary family: also before Prague - the queue contracts then collect requests
+		// that the first Prague block has to dequeue)
 		// EIP-6110 / 7002 / 7251 requests, including deposit logs emitted by reverted frames
 		switch rng.Intn(5) {
 		case 0:
